@@ -101,6 +101,8 @@ impl<W: 'static, R: 'static, T: 'static> XSequence<W, R, T> {
             Self::Empty => 0,
             Self::Array(arr) => arr.len(),
             Self::Range(start, end, step) => {
+                // the distance between two i64 does not fit in an i64
+                let (start, end, step) = (*start as i128, *end as i128, *step as i128);
                 if step.is_positive() && start < end {
                     (1 + (end - 1 - start) / step) as usize
                 } else {
